@@ -1,4 +1,5 @@
 import Rie.Proofs.Sys
+import Rie.Proofs.SysBarrier
 import Rie.Props.Tables
 
 /-!
@@ -110,6 +111,37 @@ theorem C03_registration_closed (s : State) (ph : Phase) (ho : s.orch = .iAwaitR
       s'.orch = .iAwaitAgentsReady ph := by
   have : ¬ (s.agents.length < s.initFlow.agentReady.arrived) := by omega
   simp [orchResume, ho, hop, hc, Latch.setCount, this]
+
+/-- **The runtime exists only after every launched extension has registered — whole runs.** From
+    any initial configuration (no agents, no runtime object, orchestrator idle, fresh gate; any list
+    of extension files, any timeout, either mode), after any sequence of ops — registrations in any
+    order and with any malformed variants, polls, error reports, exits at any point, invocations,
+    timeouts, resets, shutdowns, restores, every timer firing — under any scheduler choices: whenever
+    the runtime object exists (it is created immediately before the runtime process is exec'd and
+    lives until the reset), every extension file has been launched, in order, and no external
+    extension is still `Started`: each has registered (or gone on from there). Moreover the gate's
+    arrivals always equal the number of registered external extensions and its count is never below
+    the number of external extensions, so a registration's arrival is never refused by the gate.
+    Invariant `Rie.Sys.BInv`, `Rie/Proofs/SysBarrier.lean` (one lemma per model function; the
+    orchestrator passes the gate only with `arrived = count`, `binvO_orchResume`). Not covered here:
+    the second barrier (agents-ready before the first dispatch), which stays step-level
+    (`C03_delivery_guard`). -/
+theorem C03_runtime_after_registered (s0 : State) (h0 : InitialB s0) (ops : List (Nat × Op)) :
+    let s := (run s0 [] ops).1
+    (s.rt.isSome = true →
+      (s.agents.filter (·.ext)).map (·.name) = s.extFiles ∧ ∀ a ∈ s.agents, a.ext = true → a.st ≠ .started) ∧
+    s.initFlow.extRegistered.arrived = (s.agents.filter fun a => a.ext && a.st != .started && a.st != .launchError).length ∧
+    (s.agents.filter (·.ext)).length ≤ s.initFlow.extRegistered.count := by
+  have hA : AInv s0 := by show AInvL s0.agents; rw [h0.agents]; exact ⟨by simp, by simp⟩
+  obtain ⟨_, i⟩ := abinv_run s0 [] ops hA (binv_initial s0 h0)
+  exact ⟨i.rt, i.arr, i.cap⟩
+
+-- non-vacuity: two extensions; the runtime object appears only with the second registration
+example :
+    let s0 : State := { extFiles := ["a", "b"] }
+    let s1 := (run s0 [] [(0, .invoke 0 1 "h"), (0, .register "a" [.invoke] "")]).1
+    let s2 := (run s0 [] [(0, .invoke 0 1 "h"), (0, .register "a" [.invoke] ""), (0, .register "b" [] "")]).1
+    s1.rt = none ∧ s2.rt = some .started ∧ s2.initFlow.extRegistered.arrived = 2 := by decide
 
 -- non-vacuity: two extensions; the runtime is executed exactly when the second registration arrives;
 -- nothing is delivered until the runtime and both extensions have asked for next
